@@ -63,6 +63,10 @@ def generate(seed, tier):
         # genuine EEXIST, and whatever clean-up follows must not name the healthy SA that owns the triple
         sc['byz'] = {'kind': 'reuse_spi_request', 'seed': r.randrange(2 ** 31)}
         sc['meta']['byz'] = 'reuse_spi_request'
+    elif r.random() < 0.2:
+        # a peer whose selectors are real ranges (no CIDR block, ports first..last)
+        sc['byz'] = {'kind': 'range_request', 'seed': r.randrange(2 ** 31)}
+        sc['meta']['byz'] = 'range_request'
     return sc
 
 
@@ -116,7 +120,7 @@ def judge(w, tap, ctx, scenario, reach):
         q = quad(w, ch, idx)
         if q is None:
             continue
-        if scenario.get('byz'):
+        if scenario.get('byz', {}).get('kind') == 'reuse_spi_request':
             # the Byzantine peer re-uses SPIs: (daddr, proto, SPI) no longer names one negotiation, and clauses 3 and 6, which attribute kernel
             # requests and events to negotiations by SPI, are left to the other batches
             reach['byz_run_children_not_attributed'] = reach.get('byz_run_children_not_attributed', 0) + 1
@@ -124,7 +128,26 @@ def judge(w, tap, ctx, scenario, reach):
         tsi = ts_to_kernel(ch['tsi'][0]) if ch['tsi'] else None
         tsr = ts_to_kernel(ch['tsr'][0]) if ch['tsr'] else None
         if tsi is None or tsr is None:
+            # selectors that are real ranges (a peer may negotiate them): the kernel is told the smallest network that holds the addresses
+            # and never more ports than were negotiated
             reach['non_cidr_selectors'] = reach.get('non_cidr_selectors', 0) + 1
+            from sim.childcheck import ts_cover, kernel_half_vs_cover
+            ci, cr = ts_cover(ch['tsi'][0]), ts_cover(ch['tsr'][0])
+            for who, rec, src, dst in (('initiator outbound', q[0], ci, cr), ('responder inbound', q[1], ci, cr), ('initiator inbound', q[2], cr, ci),
+                                       ('responder outbound', q[3], cr, ci)):
+                if rec is None:
+                    continue
+                sel = rec['decoded']['sa']['sel']
+                nets = sel_nets(sel)
+                if not nets:
+                    continue
+                bad = kernel_half_vs_cover(nets[0], sel['sport'], sel['sport_mask'], src) or kernel_half_vs_cover(nets[1], sel['dport'], sel['dport_mask'], dst)
+                if bad:
+                    return V('sa_selector_differs_from_negotiated', {'role': who.split()[1], 'field': ('src ' if bad == 'net' else 's') + bad, 'selectors': 'ranges'},
+                             f'{who}: kernel selector {sel_str(sel)} for negotiated ranges TSi {ch["tsi"][0]["saddr"].hex()}-{ch["tsi"][0]["eaddr"].hex()} '
+                             f'ports {ch["tsi"][0]["sport"]}-{ch["tsi"][0]["eport"]} / TSr {ch["tsr"][0]["saddr"].hex()}-{ch["tsr"][0]["eaddr"].hex()} ports '
+                             f'{ch["tsr"][0]["sport"]}-{ch["tsr"][0]["eport"]}: the {bad} is not what they denote (smallest network holding the addresses; '
+                             f'all ports only if all were negotiated, else a port of the range)')
             continue
         roles = (('initiator outbound', q[0], ch['x_init'], ch['x_init_addr'], ch['x_resp_addr'], tsi, tsr, ch['spi_resp']),
                  ('responder inbound', q[1], ch['x_resp'], ch['x_init_addr'], ch['x_resp_addr'], tsi, tsr, ch['spi_resp']),
@@ -227,8 +250,8 @@ def judge(w, tap, ctx, scenario, reach):
         if res == 'acquire':
             acq.setdefault(node, []).append((t, flow))
     for m in tap.messages:
-        if m['clear'] or m['h']['R'] or m['h']['exch'] not in (R.IKE_AUTH, R.CREATE_CHILD_SA):
-            continue
+        if m['clear'] or m['h']['R'] or m['h']['exch'] not in (R.IKE_AUTH, R.CREATE_CHILD_SA) or m.get('rewritten'):
+            continue          # (a request re-sealed by the Byzantine peer is not what the daemon made of its ACQUIRE)
         if any(p['type'] == R.P_NOTIFY and p['ntype'] == R.N_REKEY_SA for p in m['payloads']):
             continue
         tsi = next((p for p in m['payloads'] if p['type'] == R.P_TSi), None)
